@@ -136,11 +136,11 @@ def tsan_keys(text):
 
 
 def helgrind_keys(text):
-    """Helgrind: 'Possible data race during read/write ...' / 'lock order ... violated' blocks."""
+    """Helgrind (--history-level=full): one block per report between dashed separators; the first stack is the
+    access, the second ('This conflicts with a previous ...') the conflicting one."""
     res = []
-    blocks = re.split(r"\n==\d+== \n", text)
-    for b in blocks:
-        m = re.search(r"==\d+== (Possible data race|Thread #\d+: lock order|Thread #\d+ unlocked|Thread #\d+: Exiting thread still holds|Thread #\d+'s call to pthread_mutex_\w+ failed)", b)
+    for b in re.split(r"==\d+== -{60,}\n", text):
+        m = re.search(r"==\d+== (Possible data race|Thread #\d+: lock order|Thread #\d+ unlocked|Thread #\d+: Exiting thread still holds|Thread #\d+'s call to pthread_mutex_\w+ failed|Thread #\d+: Attempt to re-lock)", b)
         if not m:
             continue
         kind = "data-race" if "data race" in m.group(1) else "lock-order" if "lock order" in m.group(1) else "mutex-misuse"
@@ -157,14 +157,14 @@ def helgrind_keys(text):
 
         def inner(st):
             for fn, path, line in st:
-                if fn in INTERCEPT or "vgpreload" in path or "c20_threads.c" in path or fn.startswith(("mutex_lock_WRK", "pthread_")):
+                if fn in INTERCEPT or fn == "???" or "vgpreload" in path or "c20_threads.c" in path or fn.startswith(("mutex_lock_WRK", "pthread_")) or fn in ("psLockMutex", "psUnlockMutex"):
                     continue
                 return fn
             return st[0][0] if st else "?"
         while len(stacks) < 2:
             stacks.append([])
         fns = sorted(inner(s) for s in stacks[:2])
-        res.append(("helgrind:%s:%s" % (kind, "|".join(fns)), b[:3000]))
+        res.append(("helgrind:%s:%s" % (kind, "|".join(fns)), b[:3500]))
     return res
 
 
@@ -431,7 +431,7 @@ def launch(run, binary, crlarg, keydir, tool, timeout):
     if crlarg:
         cmd += ["--crl", crlarg]
     if tool == "helgrind":
-        cmd = ["valgrind", "--tool=helgrind", "--log-file=%s/helgrind.log" % run.dir, "--history-level=approx", "-q"] + cmd
+        cmd = ["valgrind", "--tool=helgrind", "--log-file=%s/helgrind.log" % run.dir, "--history-level=full", "-q"] + cmd
     run.err = open(os.path.join(run.dir, "stderr"), "w")
     run.t0 = time.time()
     run.deadline = run.t0 + timeout
